@@ -2,3 +2,7 @@ pub mod json;
 pub mod spell;
 pub mod ftable;
 pub mod decimal;
+pub mod expr;
+pub mod eval;
+pub mod selfcheck;
+pub mod pipeline;
